@@ -42,7 +42,8 @@ RULE = (
     "symmetry, positive definiteness, value vs float64 reference inverse, non-negative bonus of every arm); histories reaching "
     "bit-identical agents (same structural-op lineage + same weights/sigma_inv/optimiser/reference bytes) are merged; "
     "states = distinct canonical (lineage, bitwise) agent states per task summed; transitions = ops executed and judged; "
-    "traces = histories (one per transition); non-trivial = distinct (algorithm, dim, arms, resize n_old->n_new, method) for which "
+    "traces = histories (one per transition); the thorough depth-5 family re-executes its prefixes of length <=3 uncounted (they belong to the "
+    "depth-3 schedule of the same configuration) and counts only histories of length 4 and 5; non-trivial = distinct (algorithm, dim, arms, resize n_old->n_new, method) for which "
     "a decision was judged after an output-layer resize that itself followed a decision; outcomes = distinct "
     "(algorithm, op kind, architecture signature, sigma size, verdict class)"
 )
@@ -94,7 +95,7 @@ def bounds(tier):
         "levels": ({"all 48 configurations": ["mid", "mid"], "deep configurations": ["mid", "mid", "red"]} if q else
                    {"all 48 configurations": ["full", "mid", "min"], "deep configurations": ["full", "mid", "red", "min"]}),
         "deep_configurations": [list(c) for c in (DEEP_QUICK if q else DEEP_THOROUGH)],
-        "long_configurations": [] if q else {"configs": [list(c) for c in LONG_THOROUGH], "levels": ["red", "min", "min", "min", "min"]},
+        "long_configurations": [] if q else {"configs": [list(c) for c in LONG_THOROUGH], "levels": ["min", "min", "min", "min", "min"]},
         "depth": "<=2 (all) / <=3 (deep)" if q else "<=3 (all) / <=4 (deep) / <=5 (long, small alphabets)",
     }
 
@@ -124,7 +125,7 @@ def tasks(tier, seed):
             # histories of length 4 and 5 over the small alphabets; their prefixes of length <=3 are contained in the
             # schedule above for the same configuration, so they are executed here but counted (and reported) there
             for c in LONG_THOROUGH:
-                add(c, ["red", "min", "min", "min", "min"], 24, 70, split_after=1, count_from=3)
+                add(c, ["min", "min", "min", "min", "min"], 16, 60, split_after=1, count_from=3)
     return out
 
 
